@@ -112,6 +112,15 @@ def object_histories(ctx, src, case):
                 L.get_char_count()
             L.update_from_lines(lines[cut:])
             ctx.feature('object_filled_in_two_steps')
+        if ctx.monitors.get('object_echoes_compared', 0) % 3 == 1:
+            # HISTORY: the object was written with a transforming writer first (a minified copy was exported, the code was measured);
+            # what the default writer gives afterwards is still the code the object was loaded with
+            wname = ('LuaMinifyTokenWriter', 'LuaFormatterWriter', 'LuaMinifyWriter', 'LuaASTEchoWriter')[ctx.monitors.get('object_echoes_compared', 0) // 3 % 4]
+            try:
+                b''.join(L.to_lines(writer_cls=getattr(lua, wname)))
+                ctx.feature('other_writer_used_before_default_writer:' + wname)
+            except Exception:
+                ctx.feature('other_writer_failed_before_default_writer')      # (that writer's own properties are checked elsewhere)
         echo = b''.join(L.to_lines())
         echo2 = b''.join(L.to_lines())
     except Exception as e:
@@ -407,6 +416,9 @@ def gates(m, tier):
         missed.append('build from a .lua file: %d (with a return statement: %d)' % (f.get('build_from_lua_file', 0), f.get('build_from_lua_file_with_return', 0)))
     if mon.get('cli_copies_compared', 0) < 20:
         missed.append('CLI copies compared: %d' % mon.get('cli_copies_compared', 0))
+    for w in ('LuaMinifyTokenWriter', 'LuaFormatterWriter', 'LuaMinifyWriter', 'LuaASTEchoWriter'):
+        if f.get('other_writer_used_before_default_writer:' + w, 0) < 30:
+            missed.append('default writer after %s on the same object: %d' % (w, f.get('other_writer_used_before_default_writer:' + w, 0)))
     if f.get('sources_with_spaced_labels', 0) < 100 or f.get('str:z-escape', 0) < 40 or f.get('str:z-escape-over-line-break', 0) < 10:
         missed.append('sources with `:: name ::` labels: %d; literals with \\z: %d (over a line break: %d)' % (
             f.get('sources_with_spaced_labels', 0), f.get('str:z-escape', 0), f.get('str:z-escape-over-line-break', 0)))
